@@ -84,7 +84,9 @@ pub fn c03(tier: &str) -> i32 {
     alpha.push(Op::Batch(vec![ins("t", &[(4, 40)]), unknown_table()]));
     alpha.push(Op::Batch(vec![ins("t", &[(4, 40)]), ins("t", &[(4, 41)])]));
     alpha.push(Op::Batch(vec![ins("t", &[(4, 40)]), del("t", 1)]));
-    let mut searches = vec![mk_search("C03", "insert/delete/ddl core on t(k UNIQUE)", Cfg::default(), prefix, alpha, if quick { 6 } else { 8 }, if quick { 100_000 } else { 3_000_000 }, |_| {})];
+    // every history without an open session is additionally followed by clean close + reopen + fresh read: what a rollback,
+    // a failed statement or a failed batch left invisible must stay invisible when only the file is left
+    let mut searches = vec![mk_search("C03", "insert/delete/ddl core on t(k UNIQUE)", Cfg::default(), prefix, alpha, if quick { 6 } else { 8 }, if quick { 100_000 } else { 3_000_000 }, |p| p.reopen_end = true)];
 
     // updates: table without an index (UPDATE on an indexed table is a listed finding)
     let prefix2 = vec![Op::Auto(Stmt::CreateTable(t_plain())), Op::Auto(ins("t", &[(1, 10), (2, 20)]))];
@@ -106,7 +108,7 @@ pub fn c03(tier: &str) -> i32 {
     a2.push(Op::Auto(upd("t", 2, 25)));
     a2.push(Op::Auto(Stmt::Update { table: "t".into(), set: vec![("v".into(), i(0))], pred: None }));
     a2.push(Op::Batch(vec![upd("t", 1, 16), unknown_table()]));
-    searches.push(mk_search("C03", "update/delete on t(k,v) without index", Cfg::default(), prefix2, a2, if quick { 6 } else { 8 }, if quick { 100_000 } else { 2_000_000 }, |_| {}));
+    searches.push(mk_search("C03", "update/delete on t(k,v) without index", Cfg::default(), prefix2, a2, if quick { 6 } else { 8 }, if quick { 100_000 } else { 2_000_000 }, |p| p.reopen_end = true));
 
     {
         // rollback / failed commit of a session whose transaction VACUUM aborted under it; with reopen at the end
